@@ -30,6 +30,7 @@ EXPLANATION = (
 ASSUMPTIONS = [phys.POSITIVITY_TEXT, "transient=False"]
 TECHNIQUE = "per-class value numbering of component hooks vs one transcribed relation; class-attribute table checks"
 EXPLANATION += (' ' + '(R11.5, the comparison of C10 R10.1) the thermal branch residual and its derivatives, of which the duty formulas are the inverse, equal the documented relation.')
+EXPLANATION += (' ' + '(R11.6, shared with C02 R2.4) the branch results the heat components report (t_outlet, temp_from, temp_to, qext, mass flows) are the pit columns of the solved state for every row.')
 
 
 def _hc(ix):
